@@ -42,5 +42,9 @@ func main() {
 		}
 	}
 	f(r, replay)
-	os.Exit(r.Finish())
+	code := r.Finish()
+	if checks.HarnessFailed() && code == 0 {
+		code = 3
+	}
+	os.Exit(code)
 }
